@@ -487,7 +487,15 @@ func c01ProductFamilies(thorough bool) []c01Product {
 			{"", "</" + el + ">"},
 		}})
 	}
-	return append([]c01Product{tag}, raws...)
+	// tag and attribute names split over text nodes by constructs that emit nothing or by a conditional
+	split := []string{"", "{{$x := 1}}", "{{if $.C}}/{{end}}", "{{if $.C}} {{end}}", "{{if $.C}}x{{end}}"}
+	if thorough {
+		split = append(split, "{{if $.C}}{{end}}", "{{/* c */}}", "{{if $.C}}{{else}}/{{end}}", "{{if $.C}}{{else}} {{end}}", "{{with $.C}}={{end}}", "{{if $.C}}\"{{end}}")
+	}
+	namesplit := c01Product{"namesplit", [][]string{
+		{"<a", "<s", "<t"}, split, {"", "cript", "extarea", " title", " data-x"}, split, {"", "/", "x"}, {"=", ""}, {"\"" + S + "\"", "'" + S + "'", ""}, {">", " >"}, {S, ""}, {"", "</script>", "</textarea>"},
+	}}
+	return append([]c01Product{tag, namesplit}, raws...)
 }
 
 // c01StateFamily groups tokenizer states by the construct the tokenizer is inside of.
